@@ -19,6 +19,7 @@ EXPLANATION_ADDED = "(R7) Backoff::advance clamps both the stored state and the 
 EXPLANATION_ADDED2 = " (R9) handshake_timeout is armed around the whole connection attempt; (R10) the stream-request channel is acquired by awaiting only; R3 also requires reset() to act on the loop's generator (by-reference capture); R7 also decides the give-up predicate and count-by-one; R8 also evaluates the io::Error classifier per ErrorKind over its CFG (11 connection-loss kinds retryable, 6 fatal kinds fatal), the wildcard arms (fatal) and the tungstenite / tls tables; (R11) every conversion into the client Error on the connect path carries the error it converts (map_err mappers and Err-edge constructions)."
 EXPLANATION = EXPLANATION + " Added while testing against seeded changes: " + EXPLANATION_ADDED + EXPLANATION_ADDED2
 EXPLANATION = EXPLANATION + ' Round 10: R7 also requires advance to multiply the stored delay by `mult` and reset to restore `initial` and count 0.'
+EXPLANATION = EXPLANATION + ' Rounds 14-15: (R12) the timer raced against a stream request is the configured channel_timeout itself.'
 ASSUMPTIONS = ["Duration arithmetic of Backoff::advance: only the clamping structure is decided (R7: stored state and returned delay are both bounded by max); the numeric delay sequence is left to the repository's unit tests"]
 NOT_DECIDED = "the delay values and the timing of attempts"
 QUICK_CONFIGS = ["default"]
